@@ -24,7 +24,8 @@ class Lineage:
         self.calls.append(facets)
 
 WORDS = ['frames', 'fps', 'cpu', 'mem', 'x', 'xx', 'a.b', 'lat_in', 'frames_total', 'f', 'fp', 'detections',
-         'détections', 'm*', 'a?c', 'abc', 'ab', '', 'x_histogram', 'frames_histogram', 'q[1]', 'A', 'a']
+         'détections', 'm*', 'a?c', 'abc', 'ab', '', 'x_histogram', 'frames_histogram', 'q[1]', 'A', 'a',
+         'zone_detections', 'cam_cpu', 'match_confidence', 'confidence']
 
 def gen_name(rng):
     r = rng.random()
@@ -36,6 +37,9 @@ def gen_pattern(rng, names, brackets=False):
     r = rng.random()
     base = rng.choice(names) if names and r < 0.75 else gen_name(rng)
     r = rng.random()
+    if '_' in base.strip('_') and rng.random() < 0.25:
+        # an exact entry that is the tail of a longer metric name (allow 'detections', a metric 'zone_detections'): no match
+        return base[base.index('_', 1) + 1:] if '_' in base[1:] else base
     if r < 0.35:
         p = base
     elif r < 0.5:
